@@ -25,7 +25,8 @@ def register(gen, T):
         out = ["import RsslVerif.Gen.SlotTables\nimport RsslVerif.Gen.CompileTables\n",
                T.header("MetaTables", ["hlsl/src/ast_generate.rs", "msl/src/generator/pipeline.rs", "ir/src/export.rs",
                                        "ast/src/ast_globals.rs", "formatter/src/formatter.rs", "src/compile.rs",
-                                       "ir/src/ir_module.rs", "hlsl/src/names.rs", "msl/src/names.rs"]),
+                                       "ir/src/ir_module.rs", "hlsl/src/names.rs", "msl/src/names.rs",
+                                       "ir/src/intrinsic_data.rs", "typer/src/typer/pipelines.rs"]),
                "open RsslVerif.Gen.SlotTables RsslVerif.Gen.CompileTables\n\n"]
         out.append("/-- `DescriptorType` (ir/src/export.rs) -/\ninductive DescT where\n" + "".join(f"  | {d}\n" for d in descs) +
                    "  deriving DecidableEq, Repr, Inhabited\n\n")
@@ -322,6 +323,28 @@ def register(gen, T):
                 raise ExtractError(f"{which}: RESERVED_NAMES empty")
             return names
 
+        # free intrinsic functions: they live in the function registry next to the user's functions, so `add_stage`
+        # (which looks an entry point up by name among *all* functions) sees them too
+        intr = T.src("ir/src/intrinsic_data.rs")
+        im = re.search(r'const INTRINSICS: &\[IntrinsicDefinition\] = &\[', intr)
+        if not im:
+            raise ExtractError("intrinsic_data.rs: INTRINSICS not found")
+        from rustsrc import matching
+        ii = im.end() - 1
+        ij = matching(intr, ii)
+        inames = []
+        for mm in re.finditer(r'f!\s*\{\s*[A-Za-z0-9_<>]+\s+([A-Za-z_][A-Za-z0-9_]*)\s*\(', intr[ii:ij]):
+            if mm.group(1) not in inames:
+                inames.append(mm.group(1))
+        if len(inames) < 50:
+            raise ExtractError(f"intrinsic_data.rs: only {len(inames)} intrinsic function names found")
+        reg_all = bool(re.search(r'for id in context\.module\.function_registry\.iter\(\) \{ let name = context\.module\.function_registry\.get_function_name\(id\); '
+                                 r'if name == entry_name \{ if func_id\.is_some\(\) \{ return Err\(TyperError::PipelineEntryPointFunctionUnknown\(location\)\); \} func_id = Some\(id\); \} \}',
+                                 normws(fn_body(T.src("typer/src/typer/pipelines.rs"), "add_stage"))))
+        out.append("/-- names of the free intrinsic functions (ir/src/intrinsic_data.rs INTRINSICS) -/\n"
+                   "def intrinsicFunctionNames : List String := " + T.lean_list(lean_str(n) for n in inames) + "\n\n")
+        out.append(f"/-- add_stage finds the entry function by name among all functions of the registry and refuses a second match -/\n"
+                   f"def entryLookupIsByNameAmongAllFunctions : Bool := {b(reg_all)}\n\n")
         out.append("def hlslReserved : List String := " + T.lean_list(lean_str(n) for n in reserved(hlsl_names, "hlsl")) + "\n\n")
         out.append("def mslReserved : List String := " + T.lean_list(lean_str(n) for n in reserved(msl_names, "msl")) + "\n")
         out.append(T.footer("MetaTables"))
